@@ -623,6 +623,22 @@ def run(tier, seed):
         for b_ in ((E("n"),), (E("n"), E("L")), (E("+"), E("n"), E("L"), E("+"))):
             impure += [(rep_list, ("lam", k_, b_), E("R")), (rep_list, ("lam", k_, b_), E("M")), (N(3), ("lam", k_, b_), E("M")),
                        (N(3), N(4), ("lam", k_, b_), E("†")), (rep_list, ("lam", k_, b_), E("F"))]
+    # else-if chains with 3, 4 and 5 branches ([A|c|B], [A|c|B|C], [A|c|B|d|C]) under every combination of truthy / falsy conditions
+    for c0 in (0, 1):
+        for c1 in (0, 1):
+            impure.append((N(5), N(c0), ("if", ((N(1),), (N(c1),), (N(2),)))))
+            impure.append((N(5), N(c0), ("if", ((N(1),), (N(c1),), (N(2),), (N(3),)))))
+            impure.append((N(c0), ("if", ((N(1), E(",")), (N(c1),), (N(2), E(","))))))
+            for c2 in (0, 1):
+                impure.append((N(5), N(c0), ("if", ((N(1),), (N(c1),), (N(2),), (N(c2),), (N(3),)))))
+    # named functions whose bodies pop MORE than they were given (the arguments are then read again, in a defined order), with counted,
+    # named and mixed parameter lists
+    for params, pre in (((2,), (N(3), N(4))), ((3,), (N(1), N(2), N(3))), ((1, 1), (N(3), N(4))), ((1, "a"), (N(3), N(10))),
+                        (("a", 1), (N(3), N(10))), ((2, "a"), (N(3), N(4), N(10))), ((1,), (N(7),))):
+        for body in ((E("+"), E("+")), (E("-"), E("-")), (E("+"), E("+"), E("+"), E("+")), (E("_"), E("_"), E("_")),
+                     (E("-"),), (E("n"),), (E("!"),)):
+            gets = tuple(("get", p_) for p_ in params if isinstance(p_, str))
+            impure.append(pre + (("fndef", "f", params, gets + body), ("fncall", "f")))
     explore.pmap(_e1_shard, [(c, list(INPUT_SETS), "E1b modifier x multi-element lambda / impure eager bodies")
                              for c in explore.chunks(modlam + impure, 32)], rep, seed)
     # E2
